@@ -7,9 +7,10 @@ export GOCACHE=$V/.cache/go-build
 mkdir -p $V/.bin $V/.gen $V/evidence $V/replays
 cd $V
 go build -o .bin/rewrite ./engine/rewrite || exit 2
-for d in checks/*/; do
-  [ -f $d/main.go ] || continue
-  id=$(basename $d)
+# only the checks claimed in MANIFEST.json are built (others may be work in progress)
+for id in $(jq -r '.checks[].property_id' MANIFEST.json | tr 'A-Z' 'a-z'); do
+  d=checks/$id
+  [ -f $d/main.go ] || { echo "missing $d/main.go"; exit 2; }
   GEN=$V/.gen/$id; mkdir -p $GEN
   PKGS=$(cat $d/rewrite.pkgs 2>/dev/null | tr '\n' ',')
   .bin/rewrite -repo /repo -out $GEN -shim $V/shim -pkgs "$PKGS" || exit 2
